@@ -103,10 +103,12 @@ func init() {
 		}
 		c07 = append(c07, it)
 	}
-	c07 = append(c07, Item{Plugin: "sites", Func: "hotline.(*OSFileStore).Symlink", Kinds: []string{"site"}})
+	for _, m := range []string{"Symlink", "Mkdir", "Stat", "Open", "RemoveAll", "Remove", "Create", "WriteFile", "Rename", "ReadFile", "OpenFile"} {
+		c07 = append(c07, Item{Plugin: "sites", Func: "hotline.(*OSFileStore)." + m, Kinds: []string{"site"}})
+	}
 	plans["C07"] = &Plan{Items: c07,
 		Decided: []string{
-			"OSFileStore.Symlink hands the OS exactly the target and link name it was given (an alias stores the in-root absolute path the handler proved, never a rewritten one)",
+			"every OSFileStore method hands the operating system exactly the paths, flags and data it was given (Symlink: an alias stores the in-root absolute path the handler proved, never a rewritten one)",
 			"ReadPath returns a path inside the file root for every path / name byte string (loop invariant: the accumulated sub-path is empty or a cleaned absolute path)",
 			"every path a file handler hands to the file store, to os.* or to NewFileWrapper is inside the requester's file root; the root registered with a file transfer is the requester's root; fileWrapper.Move / Delete / the fork writers touch only paths inside the root given their invariant; folder-upload item paths are cleaned before use; upload / download handlers on the transfer connection stay inside the root they are given",
 			"account files are created, renamed, written and removed inside the accounts directory only",
@@ -237,6 +239,8 @@ func init() {
 			{Plugin: "sites", Func: "hotline.UploadHandler", Kinds: siteKinds},
 			{Plugin: "sites", Func: "hotline.receiveFile", Kinds: siteKinds},
 			{Plugin: "handler-contract", Func: "mobius.HandleUploadFile", Kinds: []string{"site"}},
+			{Plugin: "sites", Func: "hotline.(*OSFileStore).OpenFile", Kinds: []string{"site"}},
+			{Plugin: "sites", Func: "hotline.(*OSFileStore).Rename", Kinds: []string{"site"}},
 		},
 		Decided: []string{
 			"UploadHandler never removes a file (the partial file of an interrupted upload stays for the resume)",
@@ -305,7 +309,7 @@ func init() {
 		Items: append([]Item{
 			{Plugin: "sites", Func: "hotline.(*Server).sendTransaction", Kinds: siteKinds},
 			{Plugin: "sites", Func: "hotline.sendBanMessage", Kinds: siteKinds},
-		}, fnItems(nil, "hotline.(*ClientConn).NewReply", "hotline.(*ClientConn).NewErrReply", "hotline.NewField", "hotline.(*Field).Read", "hotline.(*MemClientMgr).Add", "hotline.(*MemClientMgr).Get")...),
+		}, fnItems(nil, "hotline.(*ClientConn).NewReply", "hotline.(*ClientConn).NewErrReply", "hotline.NewTransaction", "hotline.NewField", "hotline.(*Field).Read", "hotline.(*MemClientMgr).Add", "hotline.(*MemClientMgr).Get")...),
 		Decided: []string{
 			"sendTransaction sets no write deadline on the connection (a timed-out partial Write would leave half a frame on a connection that stays in use)",
 			"sendTransaction hands a transaction to the connection with at most one Write and never through a chunking copy (so concurrently sent transactions cannot interleave inside one another)",
